@@ -455,3 +455,13 @@ PROPS["C18"]["model_files"] = list(dict.fromkeys(PROPS["C18"]["model_files"] + [
 PROPS["C18"]["rule"] = PROPS["C18"]["rule"] + (" || staticload: 3 corpus + n generated stores of DATATYPE_STATICLOAD entries (6 symbols, plain and '.txt' keys, translations nor/swa/fra at random) "
     "and 3-12 lookups through ONE DbResource (FuncFor + call) under context languages {none, nor, swa, fra, eng}, half of them repeating the previous symbol in another language; "
     "model ResModel.db_staticload threaded through the sequence; monitor: translation, else default entry, else the '.txt' forms, else not-found, judged from the entries alone")
+
+# C19 (agent conc follow-up 4) + C18: one WithFlush persister reused by several sessions; an emitting logger shared by the goroutines
+PROPS["C19"]["rule"] = PROPS["C19"]["rule"] + (" || alias: a third of the application cases in the shape of a long-lived server - ONE persist.Persister created WithFlush reused for every request of 2-4 "
+    "interleaved sessions over one db/mem store, every session with a Config.Language of its own (nor/swa/fra/eng/none), applications with translated templates and (because of K-C11-6) without LOAD/RELOAD "
+    "and without entry functions; race: a sixth of the runs with the application logging every request through one emitting library logger (Vanilla.WithLevel(LVL_TRACE), LogWriter = io.Discard)")
+PROPS["C19"]["trusted_extra"] = PROPS["C19"]["trusted_extra"] + ["the library's OWN log calls stay filtered at LVL_NONE in the registered binary (the level is fixed by build tag at package initialisation); a build with -tags logtrace exercises them (optional binary vh_conc_log, not registered)"]
+PROPS["C18"]["drivers"] = PROPS["C18"]["drivers"] + [{"name": "alias", "bin": "vh_conc", "args": ["-replay", "only:shared-persister"], "env": {"GORACE": "halt_on_error=1 exitcode=66"}, "n_quick": 60, "n_thorough": 600}]
+PROPS["C18"]["model_files"] = list(dict.fromkeys(PROPS["C18"]["model_files"] + SLICE_MODEL))
+PROPS["C18"]["rule"] = PROPS["C18"]["rule"] + (" || alias (vh_conc, shape shared-persister only): ONE WithFlush persister reused for every request of 2-4 interleaved sessions with different configured languages; "
+    "every session's responses, stored session (language included) and calls must equal its solo run")
